@@ -115,6 +115,14 @@ class G15:
             if rng.random() < 0.5:
                 return "log(%d, typeof %s);" % (t, slot)
             return "log(%d, typeof %s); %s = %s; log(%d, %s);" % (t, slot, slot, self.expr(vis), t, slot)
+        if vis and rng.random() < 0.5:
+            # the catch parameter reuses the name of an enclosing local/parameter/global, and a
+            # closure made inside the catch block captures it together with other variables
+            e = rng.choice(vis)
+            fn = self.fresh("cf")
+            return ("try { throw %s; } catch (%s) { var %s = function(){ return (%s + %s) %% 9973; }; log(%d, %s()); "
+                    "[1, 2].forEach(function(q){ log(%d, (q + %s + %s) %% 9973); }); }"
+                    % (self.expr(vis), e, fn, e, self.expr(vis), t, fn, t, e, self.expr(vis)))
         e = self.fresh("e")
         return "try { throw %s; } catch (%s) { log(%d, (%s + %s) %% 9973); }" % (self.expr(vis), e, t, e, self.expr(vis))
 
